@@ -24,6 +24,8 @@ Games ==
       [] Family = "forced" -> DescribeAll("forced", Pick(K, ForcedGames))
       [] Family = "degen" -> DescribeAll("degen", DegenGames)
       [] Family = "jump1" -> DescribeAll("jump1", Pick(K, Jump1Games))
+      [] Family = "duplabel" -> DescribeAll("duplabel", DupLabelGames)
+      [] Family = "minreachrank" -> DescribeAll("minreachrank", MinReachRankGames)
       [] Family = "zerow" -> DescribeAll("zerow", ZeroWGames)
       [] Family = "slow" -> DescribeAll("slow", Pick(K, SlowGames))
       [] Family = "bigrew" -> DescribeAll("bigrew", Pick(K, BigRewGames))
